@@ -275,7 +275,7 @@ func c16CSVField(t *rapid.T, l, v string) string {
 	}
 }
 
-var c16JSONValues = []string{`null`, `{}`, `[]`, `""`, `"x"`, `0`, `-1`, `200`, `1.5`, `1e400`, `18446744073709551616`, `true`, `{"K":["v"]}`, `{"K":[]}`, `{"K":null}`, `{"K":"v"}`, `{"K":[1]}`,
+var c16JSONValues = []string{`null`, `{}`, `[]`, `""`, `"x"`, `0`, `-1`, `200`, `1.5`, `1e400`, `18446744073709551616`, `true`, `{"K":["v"]}`, `{"K":[]}`, `{"K":null}`, `{"K":"v"}`, `{"K":[1]}`, `{"K":[null]}`, `{"K":["a",null,"b"]}`, `{"K":[null,null]}`, `{"K":[true]}`, `{"K":[{}]}`, `{"K":[[]]}`, `{"K":[""]}`, `{"K":["a",]}`, `{"K":[,"a"]}`, `[null]`, `{"K":null,"L":[null]}`, `{null:["v"]}`,
 	`{"K":["v"],"K":["w"]}`, `{"":[""]}`, `[["v"]]`, `{"K":{"L":["v"]}}`, `"DQo="`, `"!!!"`, `"2006-01-02T15:04:05Z"`, `"2006-01-02T15:04:05.999999999+14:00"`, `"0000-00-00T00:00:00Z"`, `"GET"`, `"http://h.test/"`, `"://"`,
 	`"\ud800"`, `"\u0000"`, `{"K":["v"]`, `[`, `{"a":`, strings.Repeat("[", 200) + strings.Repeat("]", 200)}
 
